@@ -379,9 +379,10 @@ pub fn before_fn<'a>(
     s: &'a gherkin::Scenario,
     w: &'a mut SimWorld,
 ) -> LocalBoxFuture<'a, ()> {
-    eager_fault(CbKind::Before, &site_before(&s.name), Some(&mut *w), Some(s.name.clone()), None);
+    let id = crate::plan::scenario_identity(s);
+    eager_fault(CbKind::Before, &site_before(&id), Some(&mut *w), Some(id.clone()), None);
     Box::pin(async move {
-        callback(CbKind::Before, site_before(&s.name), Some(w), Some(s.name.clone()), None).await;
+        callback(CbKind::Before, site_before(&id), Some(w), Some(id.clone()), None).await;
     })
 }
 
@@ -407,9 +408,10 @@ pub fn after_fn<'a>(
     w: Option<&'a mut SimWorld>,
 ) -> LocalBoxFuture<'a, ()> {
     let mut w = w;
-    eager_fault(CbKind::After, &site_after(&s.name), w.as_deref_mut(), Some(s.name.clone()), Some(render_finished(fin)));
+    let id = crate::plan::scenario_identity(s);
+    eager_fault(CbKind::After, &site_after(&id), w.as_deref_mut(), Some(id.clone()), Some(render_finished(fin)));
     Box::pin(async move {
         let arg = render_finished(fin);
-        callback(CbKind::After, site_after(&s.name), w, Some(s.name.clone()), Some(arg)).await;
+        callback(CbKind::After, site_after(&id), w, Some(id.clone()), Some(arg)).await;
     })
 }
